@@ -175,6 +175,18 @@ CHECKS["C13"] = (
     "DESIGN.md 6 (C13)",
 )
 
+CHECKS["C15"] = (
+    "model_checking",
+    "stateless preemption-bounded exploration of ALL thread schedules of small harnesses on the real code under a controlled scheduler (sys.settrace baton at every library source line)",
+    "34 harnesses (6 definitions using expression-sized arrays with unary minus, bit-fields, a union with a nested struct, enums/flags with "
+    "unknown values, pointers with dereference, nested dynamic structures with wchar; both readers; thread bodies parse/parse, parse/dumps, "
+    "dumps/dumps, parse/deref on shared type objects and independent streams): every schedule with <=1 preemption of 2 threads (and of 3 "
+    "threads for parse/parse) is executed - thorough: <=2 preemptions for parse/parse, 3 threads everywhere, and <=1 preemption at byte-code "
+    "granularity in expression.py/bitbuffer.py/types/base.py - and every thread's result must equal its sequential result. Violating "
+    "schedules are replayed twice (determinism) before being reported.",
+    "DESIGN.md 5.2, 6 (C15)",
+)
+
 NOT_APPLICABLE = {}
 
 
